@@ -112,7 +112,7 @@ func runTransactions(s *kit.Stack, p peer.ID, subs []*kit.Sub, g *ghost) {
 			return nil
 		})
 		verifrt.Event(desc)
-		if verifrt.Choose("drain", 2) == 1 {
+		if verifrt.Param("NODRAIN", 0) == 0 && verifrt.Choose("drain", 2) == 1 {
 			drain()
 			verifrt.AssertKF(s.Alloc.AllocatedForPeer(p) == 0, "C15 memory still accounted to the peer although its queue is idle (between transactions)", "C15-F1", g.extBytes)
 			verifrt.Cover("idle-between-transactions")
@@ -223,19 +223,27 @@ func VerifSend_Accounting() {
 			verifrt.Cover("error-reported")
 		}
 	}
-	// C17(2): per request, link metadata leaves in the order it was queued
-	for r := range subs {
+	// C17(2): messages leave in the order they were queued: link indices were
+	// handed out in queueing order (across all requests), so over the sequence
+	// of sent messages they never decrease
+	{
 		last := -1
 		for _, m := range s.Net.Sent {
+			lo, hi := 1<<30, -1
 			for _, rsp := range m.Responses() {
-				if rsp.RequestID() != kit.ReqID(r) {
-					continue
-				}
 				rsp.Metadata().Iterate(func(c cid.Cid, _ graphsync.LinkAction) {
 					idx := int(c.Hash()[len(c.Hash())-1])
-					verifrt.Assert(idx >= last, "C17 response data left the queue out of queued order")
-					last = idx
+					if idx < lo {
+						lo = idx
+					}
+					if idx > hi {
+						hi = idx
+					}
 				})
+			}
+			if hi >= 0 {
+				verifrt.Assert(lo >= last, "C17 response data left the queue out of queued order")
+				last = hi
 			}
 		}
 	}
